@@ -27,7 +27,8 @@ Fixpoint asize_ty (t : aty) : nat :=
   | TVar _ | TScalar _ => 1
   | TAdt _ args => S (list_sum (map asize_garg args))
   | TTuple ts => S (list_sum (map asize_ty ts))
-  | TRef _ _ t => S (asize_ty t)
+  | TRef _ _ t | TRaw _ t | TSlice t => S (asize_ty t)
+  | TStr | TNever => 1
   end
 with asize_garg (a : agarg) : nat := match a with GTy t => S (asize_ty t) | GLt _ => 1 end.
 
@@ -54,7 +55,7 @@ Proof.
   assert (Hg : forall a, asize_garg a <= n -> need_garg a <= length (p_garg a)).
   { intros a Ha. destruct (IHa a Ha) as [H|[t [-> H]]]; [lia|exact H]. }
   split.
-  - intros t Hs. destruct t as [v|nm args|s|ts|m l t]; cbn [asize_ty] in Hs; cbn [need_ty p_ty].
+  - intros t Hs. destruct t as [v|nm args|s|ts|m l t|m t|t| |]; cbn [asize_ty] in Hs; cbn [need_ty p_ty].
     + destruct v; cbn; lia.
     + cbn [length]. apply le_n_S.
       eapply Nat.le_trans; [|apply len_angle]. rewrite map_map_len.
@@ -70,6 +71,10 @@ Proof.
       * cbn [length]. rewrite app_length. cbn [length].
         pose proof (len_sep_by (map p_ty (t1 :: t2 :: r)) ltac:(cbn; congruence)) as E. cbn [map] in *. lia.
     + cbn [length]. rewrite !app_length. assert (need_ty t <= length (p_ty t)) by (apply IHt; lia). lia.
+    + cbn [length]. assert (need_ty t <= length (p_ty t)) by (apply IHt; lia). lia.
+    + cbn [length]. rewrite !app_length. assert (need_ty t <= length (p_ty t)) by (apply IHt; lia). lia.
+    + cbn; lia.
+    + cbn; lia.
   - intros a Hs. destruct a as [t|l]; cbn [asize_garg] in Hs.
     + right. exists t. split; [reflexivity|]. apply IHt. lia.
     + left. destruct l as [[d i]| |]; cbn; lia.
@@ -141,14 +146,21 @@ Proof.
   pose proof (len_sep_by (p_fields i (f :: r)) ltac:(cbn; congruence)) as E. cbn [length] in *. lia.
 Qed.
 
+Lemma need_variants_len i vs : S (length vs) + need_variants vs <= length (p_variants i vs) + 1.
+Proof.
+  unfold need_variants, list_sum. revert i. induction vs as [|fs r IH]; intros i; cbn [p_variants map fold_right length]; [lia|].
+  repeat (rewrite ?app_length; cbn [length]). specialize (IH (S i)). pose proof (len_fields 0 fs). lia.
+Qed.
+
 Lemma len_attr b k : 0 <= length (attr b k).
 Proof. lia. Qed.
 
 Lemma need_item_len it : need_item it + 2 <= length (p_item it).
 Proof.
-  destruct it as [name ps fl fs wcs|name ps fl wcs|ps up pos tr args self wcs]; cbn [need_item p_item];
+  destruct it as [name ps fl fs wcs|name ps fl vs wcs|name ps fl wcs|ps up pos tr args self wcs]; cbn [need_item p_item];
     repeat rewrite app_length; cbn [length].
   - pose proof (len_params 1 0 ps). pose proof (need_qwcs_len 2 wcs). pose proof (len_fields 0 fs). (unfold aty, aqwc, agarg, aitem in *; lia).
+  - pose proof (len_params 1 0 ps). pose proof (need_qwcs_len 2 wcs). pose proof (need_variants_len 0 vs). (unfold aty, aqwc, agarg, aitem in *; lia).
   - pose proof (len_params 1 1 ps). pose proof (need_qwcs_len 2 wcs). (unfold aty, aqwc, agarg, aitem in *; lia).
   - pose proof (len_params 1 0 ps). pose proof (need_qwcs_len 2 wcs). pose proof (need_gargs_len args).
     pose proof (need_ty_len self). (unfold aty, aqwc, agarg, aitem in *; lia).
